@@ -404,3 +404,29 @@ theorem get_elem_F_of_convert_error {α} (ra : RA α) (fast : Bool) (i j : Int) 
     mapE_cons, h, bindE_error]
 
 end Ens.Ragged
+
+namespace Ens.Ragged
+open Ens
+
+/-- `a[[i…], [j]]`: a one-element column list is broadcast over the row list -/
+theorem get_paired_bcast_col_F {α} (ra : RA α) (h : WF ra) (fast : Bool) (l : List Int) (b b2 : Bool) (j : Int)
+    (hl : l.length ≠ 1) :
+    absE (getItemF ra fast (.two (.list l b) (.list [j] b2))) =
+      specGet (rows ra) (.two (.list l b) (.list [j] b2)) := by
+  simp only [getItemF, specGet, absE, pairedF, idxArr, pairedCoreF_col, gather_eq ra h, mapE_map,
+    List.length_cons, List.length_nil, List.headD_cons]
+  rw [if_neg (by simpa using hl), if_pos trivial]
+  cases mapE (fun i => cell (rows ra) (i, j)) l <;> rfl
+
+/-- `a[[i], [j…]]`: a one-element row list is broadcast over a non-empty column list -/
+theorem get_paired_bcast_row_F {α} (ra : RA α) (h : WF ra) (fast : Bool) (i : Int) (l2 : List Int) (b b2 : Bool)
+    (hl : l2.length ≠ 1) (hne : l2 ≠ []) :
+    absE (getItemF ra fast (.two (.list [i] b) (.list l2 b2))) =
+      specGet (rows ra) (.two (.list [i] b) (.list l2 b2)) := by
+  simp only [getItemF, specGet, absE, pairedF, idxArr, pairedCoreF_row, List.length_cons, List.length_nil,
+    List.headD_cons]
+  rw [if_neg hne, if_neg (by intro h1; exact hl h1.symm), if_neg hl, if_pos ⟨trivial, hne⟩]
+  simp only [gather_eq ra h, mapE_map]
+  cases mapE (fun j => cell (rows ra) (i, j)) l2 <;> rfl
+
+end Ens.Ragged
